@@ -5,6 +5,7 @@ package compact
 import (
 	"diagonal.works/b6"
 	"diagonal.works/b6/encoding"
+	"diagonal.works/b6/ingest"
 	"diagonal.works/b6/verifrt"
 )
 
@@ -489,4 +490,62 @@ func verifHelper_C08_two(a, b uint64) {
 	verifrt.Assert(it.Next(), "second")
 	verifrt.Assert(it.FeatureID() == vC08ID(b6.FeatureTypePath, b), "second-id")
 	verifrt.Assert(!it.Next(), "end")
+}
+
+// ---- C37: the compact Validator's area state machine (bounded shapes) -------------------
+// An area with one polygon of two paths; the states already recorded for the two
+// paths are symbolic (valid / invalid / unknown, or not yet seen for the second).
+// An area is emitted exactly when every path it lists is known to be valid.
+
+func vC37Path(v uint64) b6.FeatureID {
+	return b6.FeatureID{Type: b6.FeatureTypePath, Namespace: "diagonal.works/verif", Value: v}
+}
+
+func vC37Combine(s1, s2 ValidationState) ValidationState {
+	if s1 == ValidationStateInvalid || s2 == ValidationStateInvalid {
+		return ValidationStateInvalid
+	}
+	if s1 == ValidationStateUnknown || s2 == ValidationStateUnknown {
+		return ValidationStateUnknown
+	}
+	return ValidationStateValid
+}
+
+func verifLemma_C37_validate_area_two_paths(s1, s2 ValidationState) {
+	verifrt.Assume(s1 >= ValidationStateValid && s1 <= ValidationStateUnknown && s2 >= ValidationStateValid && s2 <= ValidationStateUnknown)
+	p1, p2 := vC37Path(1), vC37Path(2)
+	v := &Validator{paths: map[b6.FeatureID]ValidationState{p1: s1, p2: s2}}
+	a := ingest.NewAreaFeature(1)
+	a.SetPathIDs(0, []b6.FeatureID{p1, p2})
+	verifrt.Assert(v.validateArea(a) == vC37Combine(s1, s2), "state-is-the-worst-of-its-paths")
+	// order of the paths does not matter
+	b := ingest.NewAreaFeature(1)
+	b.SetPathIDs(0, []b6.FeatureID{p2, p1})
+	verifrt.Assert(v.validateArea(b) == vC37Combine(s1, s2), "state-independent-of-path-order")
+}
+
+func verifLemma_C37_validate_area_unseen_path(s1 ValidationState) {
+	verifrt.Assume(s1 >= ValidationStateValid && s1 <= ValidationStateUnknown)
+	p1, p2 := vC37Path(1), vC37Path(2)
+	v := &Validator{paths: map[b6.FeatureID]ValidationState{p1: s1}}
+	a := ingest.NewAreaFeature(1)
+	a.SetPathIDs(0, []b6.FeatureID{p2, p1})
+	got := v.validateArea(a)
+	verifrt.Assert(got == vC37Combine(ValidationStateUnknown, s1), "unseen-path-makes-the-area-wait")
+	st, seen := v.paths[p2]
+	verifrt.Assert(seen && st == ValidationStateUnknown, "unseen-path-is-recorded-as-unknown")
+}
+
+// ValidateArea emits the area exactly when it is valid and queues a copy exactly when
+// it has to wait.
+func verifLemma_C37_validate_area_emits_only_valid(s1, s2 ValidationState) {
+	verifrt.Assume(s1 >= ValidationStateValid && s1 <= ValidationStateUnknown && s2 >= ValidationStateValid && s2 <= ValidationStateUnknown)
+	p1, p2 := vC37Path(1), vC37Path(2)
+	v := &Validator{paths: map[b6.FeatureID]ValidationState{p1: s1, p2: s2}, queue: make([]*ingest.AreaFeature, 0, 2)}
+	a := ingest.NewAreaFeature(1)
+	a.SetPathIDs(0, []b6.FeatureID{p1, p2})
+	fs := v.ValidateArea(a, nil)
+	want := vC37Combine(s1, s2)
+	verifrt.Assert((len(fs) == 1) == (want == ValidationStateValid), "emitted-iff-valid")
+	verifrt.Assert((len(v.queue) == 1) == (want == ValidationStateUnknown), "queued-iff-unknown")
 }
